@@ -97,6 +97,84 @@ def run_requests(ctx, hbin, drv, reqs, label, stats):
             seen_mangled[il[i]] = p[1]
 
 
+def program_symbols(ctx, drv, stats):
+    """Per-program leg: the global function symbols of emitted assembly are pairwise distinct, well-formed, within the
+    cap, and (when not shortened) round-trip through the Lean model: mangle(demangle(sym)) = sym."""
+    import shutil
+    tc = C.toolchain(need_boots=True)
+    work = os.path.join(C.BUILD, "tmp", "c19_%d" % os.getpid())
+    shutil.rmtree(work, ignore_errors=True)
+    os.makedirs(work)
+    progs = [os.path.join(C.VERIF, "corpus", "C19", f) for f in sorted(os.listdir(os.path.join(C.VERIF, "corpus", "C19")))
+             if f.endswith(".dora")]
+    progs.append(os.path.join(C.VERIF, "corpus", "C15", "features", "main.dora"))
+    if ctx.tier != "quick":
+        rt = []
+        for root, _, fs in os.walk(os.path.join(C.REPO, "test", "rt")):
+            for f in sorted(fs):
+                fp = os.path.join(root, f)
+                if f.endswith(".dora") and "fn main" in open(fp, errors="replace").read() and "//= ignore" not in open(fp, errors="replace").read(300):
+                    rt.append(fp)
+        rng = ctx.rng()
+        rng.shuffle(rt)
+        progs += rt[:150]
+    stats["programs"] = 0
+    stats["symbols"] = 0
+    stats["shortened_symbols"] = 0
+    for p in progs:
+        for (vn, flags) in (("cannon", ["--cannon"]), ("boots", [])):
+            base = os.path.join(work, "o")
+            rc, out = C.sh([tc["dora"], "compile", "-S"] + flags + [p, "-o", base], cwd=work, timeout=600)
+            sfile = base + ".s" if os.path.exists(base + ".s") else base
+            if rc != 0 or not os.path.isfile(sfile):
+                ctx.notes.append("C19 program leg: %s (%s) does not compile: %s" % (os.path.basename(p), vn, out[-120:].replace("\n", " ")))
+                continue
+            labels = re.findall(r"^([A-Za-z_.$][\w.$]*):\s*$", open(sfile).read(), flags=re.M)
+            os.unlink(sfile)
+            syms = [l for l in labels if l.startswith("dora_") and not l.startswith("dora_aot_") and l not in
+                    ("dora_entry_trampoline", "dora_global_memory", "dora_global_memory_end", "dora_gc_collector")]
+            stats["programs"] += 1
+            stats["symbols"] += len(syms)
+            seen = {}
+            for l in labels:
+                if l in seen:
+                    stats["oracle_failures"] += 1
+                    ctx.finding("oracle:duplicate-symbol", dict(kind="oracle", program=p, variant=vn, symbol=l),
+                                "%s (%s): the symbol %s is defined twice — two functions got the same linker symbol" % (os.path.basename(p), vn, l[:120]))
+                seen[l] = 1
+            reqs = []
+            for sname in syms:
+                if not re.fullmatch(r"[A-Za-z_][A-Za-z0-9_]*", sname) or len(sname) > 200:
+                    stats["oracle_failures"] += 1
+                    ctx.finding("oracle:bad-symbol", dict(kind="oracle", program=p, variant=vn, symbol=sname),
+                                "symbol outside the character set or longer than the cap: %s" % sname[:150])
+                if len(sname) == 200 and re.search(r"_H[0-9A-F]{32}$", sname):
+                    stats["shortened_symbols"] += 1
+                else:
+                    reqs.append("demangle " + sname.encode().hex())
+            rc2, model, err2 = C.sh2([drv], stdin="\n".join(reqs) + "\n", timeout=300)
+            names = model.splitlines()
+            back = ["mangle " + n for n in names if n != "none"]
+            rc3, model2, err3 = C.sh2([drv], stdin="\n".join(back) + "\n", timeout=300)
+            remangled = iter(model2.splitlines())
+            dn = {}
+            for rq, n in zip(reqs, names):
+                symhex = rq.split(" ")[1]
+                if n == "none":
+                    stats["oracle_failures"] += 1
+                    ctx.finding("oracle:symbol-does-not-demangle", dict(kind="oracle", program=p, variant=vn, symbol=bytes.fromhex(symhex).decode()),
+                                "an unshortened symbol does not demangle: %s" % bytes.fromhex(symhex).decode()[:150])
+                    continue
+                if next(remangled) != symhex:
+                    stats["oracle_failures"] += 1
+                    ctx.finding("oracle:symbol-not-canonical", dict(kind="oracle", program=p, variant=vn, symbol=bytes.fromhex(symhex).decode()),
+                                "mangle(demangle(symbol)) differs from the symbol")
+                if n in dn and dn[n] != symhex:
+                    stats["oracle_failures"] += 1
+                dn[n] = symhex
+    shutil.rmtree(work, ignore_errors=True)
+
+
 def run(ctx):
     po = C.proof_obligations(ctx, PROP_MODULE, PROP_FILE, hygiene_paths=("DoraModel/Symbol", PROP_FILE))
     drv, dlog = C.lean_exe("drv_c19")
@@ -117,12 +195,15 @@ def run(ctx):
             cdir = os.path.join(C.VERIF, "corpus", "C19")
             if os.path.isdir(cdir):
                 for f in sorted(os.listdir(cdir)):
+                    if not f.endswith(".req"):
+                        continue
                     reqs = [l.strip() for l in open(os.path.join(cdir, f)) if l.strip()]
                     run_requests(ctx, hbin, drv, reqs, "corpus", stats)
             n = 3000 if ctx.tier == "quick" else 200000
             rc, gen, err = C.sh2([hbin, "gen", str(n)], env={"VERIF_SEED": str(ctx.seed)}, timeout=600)
             reqs = [l for l in gen.splitlines() if l]
             run_requests(ctx, hbin, drv, reqs, "gen", stats)
+            program_symbols(ctx, drv, stats)
     # proof side: a theorem that no longer checks is a violation even if no input was found
     if not po["build_ok"] or po["failed"]:
         found_input = stats["disagreements"] > 0 or stats["oracle_failures"] > 0
@@ -141,7 +222,9 @@ def run(ctx):
                     "{34, 35..44, <34, len±1, 200}, damaged symbols for demangle; non-trivial = name contains a "
                     "byte that needs an escape, or the cap is hit, or demangle input has an escape/is refused",
                histogram=stats["hist"], samples=stats["samples"] or [dict(note="no sample")],
-               disagreements=stats["disagreements"], oracle_failures=stats["oracle_failures"])
+               disagreements=stats["disagreements"], oracle_failures=stats["oracle_failures"],
+               program_leg=dict(artifacts=stats.get("programs", 0), symbols=stats.get("symbols", 0),
+                                shortened=stats.get("shortened_symbols", 0)))
     ctx.write_evidence("proof", cov, assumptions=[
         "names are byte strings in the model; Rust only passes valid UTF-8",
         "the model is hand-written; agreement with dora-symbol is checked on the generated requests only"])
